@@ -230,3 +230,97 @@ def r_dosimplex(idx, rep, rule="R-DOSIMPLEX"):
                 return body[:i] + [new]
         return body
     walk(push_tail(list(rr.node.body)), None, [])
+
+
+# ---------------------------------------------------------------------------------------------------------------------- R-EXPANDPORTAL
+def _tested_vertex(fnode, test, v):
+    """k when `test` is a sign test of <v[k], x> (`v[k].dot(x) > 0`, `np.dot(v[k], x) >= 0`, `x.dot(v[k]) < 0`, also through one local), else None"""
+    from ..core.astutil import resolved
+    if not (isinstance(test, ast.Compare) and len(test.ops) == 1):
+        return None
+    sides = [test.left, test.comparators[0]]
+    if not any(const(s) in (0, 0.0) and const(s) is not None and not isinstance(const(s), bool) for s in sides):
+        return None
+    e = sides[0] if const(sides[0]) is None else sides[1]
+    if isinstance(e, ast.Name):
+        e = resolved(fnode, e)
+    ops = None
+    if isinstance(e, ast.Call) and isinstance(e.func, ast.Attribute) and e.func.attr == "dot" and len(e.args) == 1 and u(e.func.value) != "np":
+        ops = [e.func.value, e.args[0]]
+    elif isinstance(e, ast.Call) and (call_name(e) or "") == "np.dot" and len(e.args) == 2:
+        ops = list(e.args)
+    elif isinstance(e, ast.BinOp) and isinstance(e.op, ast.MatMult):
+        ops = [e.left, e.right]
+    if ops is None:
+        return None
+    ks = []
+    for o in ops:
+        if isinstance(o, ast.Name):
+            o = resolved(fnode, o) or o
+        if isinstance(o, ast.Subscript) and isinstance(o.value, ast.Name) and o.value.id == v:
+            k = const(o.slice)
+            if isinstance(k, int) and not isinstance(k, bool):
+                ks.append(k)
+    return ks[0] if len(ks) == 1 else None
+
+
+def _rows_stored(stmts, v, row_vars=()):
+    """constant rows of `v` stored in the statements; when the arm only CHOOSES the row (`replaced = 3`, the store `v[replaced] = ...` follows the case
+    analysis), the constants bound to such a row variable"""
+    out = set()
+    for st in stmts:
+        for n in ast.walk(st):
+            if isinstance(n, ast.Subscript) and isinstance(n.ctx, ast.Store) and isinstance(n.value, ast.Name) and n.value.id == v:
+                k = const(n.slice)
+                out.add(k if isinstance(k, int) and not isinstance(k, bool) else None)
+            elif isinstance(n, ast.Assign) and len(n.targets) == 1 and isinstance(n.targets[0], ast.Name) and n.targets[0].id in row_vars:
+                k = const(n.value)
+                out.add(k if isinstance(k, int) and not isinstance(k, bool) else None)
+    return out
+
+
+def r_expandportal(idx, rep, rule="R-EXPANDPORTAL"):
+    rep.rule(rule, "mpr._expand_portal (libccd ccdMPRExpandPortal): the new support point v4 replaces one of the portal vertices v1..v3 so that the origin ray stays inside the "
+                   "portal.  Each innermost sign test `<v[k], v4 x v0> > 0` decides which of the two OTHER vertices is replaced: the tested vertex k is kept on both "
+                   "outcomes, the two outcomes replace different vertices, and the two innermost tests look at different vertices.  A test that looks at a vertex it then "
+                   "replaces decides on the wrong side of the new edge: the portal no longer contains the origin ray and refinement converges to a face that is not the one "
+                   "the ray leaves through", floor=2)
+    f = idx.func("distance3d.mpr::_expand_portal")
+    v = f.params()[0]
+    inner = []
+    for n in ast.walk(f.node):
+        if isinstance(n, ast.If):
+            k = _tested_vertex(f.node, n.test, v)
+            if k is None:
+                continue
+            nested = [x for b in (n.body, n.orelse) for s in b for x in ast.walk(s) if isinstance(x, ast.If) and _tested_vertex(f.node, x.test, v) is not None]
+            if not nested:
+                inner.append((n, k))
+    # row variables: `v[replaced], v1[replaced], v2[replaced] = v4, v14, v24` after the case analysis
+    row_vars = {n.slice.id for n in ast.walk(f.node) if isinstance(n, ast.Subscript) and isinstance(n.ctx, ast.Store) and isinstance(n.value, ast.Name) and n.value.id == v
+                and isinstance(n.slice, ast.Name)}
+    if not inner:
+        rep.unknown(rule, f.key + "|innermost vertex tests", f.where, "no sign test of <v[k], .> on the portal vertices recognised")
+        rep.unknown(rule, f.key + "|innermost vertex tests cover", f.where, "no sign test recognised")
+        return
+    for n, k in inner:
+        key = "%s|test of vertex %d keeps it (`%s`)" % (f.key, k, u(n.test)[:50])
+        where = "%s:%d" % (f.module.relpath, n.lineno)
+        a, b = _rows_stored(n.body, v, row_vars), _rows_stored(n.orelse, v, row_vars)
+        if None in a | b or not a or not b:
+            rep.unknown(rule, key, where, "replaced rows not constant on both outcomes (%r / %r)" % (sorted(map(str, a)), sorted(map(str, b))))
+        elif k in a | b:
+            rep.bad(rule, key, where,
+                    "the test `%s` looks at portal vertex %d and one of its outcomes REPLACES vertex %d by the new support point (rows replaced: %s / %s): the side of the plane "
+                    "(v4, v0, v%d) is only meaningful for choosing between the other two vertices — the expanded portal can lose the origin ray, and MPR reports a wrong "
+                    "penetration depth / direction" % (u(n.test)[:60], k, k, sorted(a), sorted(b), k))
+        elif a == b:
+            rep.bad(rule, key, where, "both outcomes of `%s` replace the same vertex %s: the test decides nothing" % (u(n.test)[:60], sorted(a)))
+        else:
+            rep.ok(rule, key, where, "replaces %s / %s" % (sorted(a), sorted(b)))
+    ks = [k for _n, k in inner]
+    key = f.key + "|innermost tests look at different vertices"
+    if len(ks) >= 2 and len(set(ks)) < len(ks):
+        rep.bad(rule, key, f.where, "the innermost tests look at the vertices %s: the same vertex decides in both half spaces of <v[1], v4 x v0>, the third vertex is never consulted" % ks)
+    else:
+        rep.ok(rule, key, f.where, "vertices %s" % ks)
